@@ -455,12 +455,12 @@ theorem addCards_skel (m : Mem) (nc pseq : Nat) : SkelLex (m.addCards nc pseq) m
 /-- the accepted branch of `putTail` -/
 theorem putTail_accept (m : Mem) (a : PutArgs) (sup reuse : Option Nat) (t : Trace) (hi : Inv m)
     (hsup : ∀ x, sup = some x → x < m.frames.length) (hreu : ∀ x, reuse = some x → x < m.frames.length) :
-    Inv ((((m.appendPut a sup reuse).afterAppend t).addCards a.nc (m.seq + 1)), Out.seq (m.seq + 1)).1 ∧
-    (((((m.appendPut a sup reuse).afterAppend t).addCards a.nc (m.seq + 1)), Out.seq (m.seq + 1)).2.isAck = true →
-        abs ((((m.appendPut a sup reuse).afterAppend t).addCards a.nc (m.seq + 1)), Out.seq (m.seq + 1)).1
+    Inv ((((m.appendPut a sup reuse).afterAppend t).addCards a.nc m.nextFrameId), Out.seq (m.seq + 1)).1 ∧
+    (((((m.appendPut a sup reuse).afterAppend t).addCards a.nc m.nextFrameId), Out.seq (m.seq + 1)).2.isAck = true →
+        abs ((((m.appendPut a sup reuse).afterAppend t).addCards a.nc m.nextFrameId), Out.seq (m.seq + 1)).1
           = sApply (abs m) (putRecords m.seq a sup reuse)) ∧
-    (((((m.appendPut a sup reuse).afterAppend t).addCards a.nc (m.seq + 1)), Out.seq (m.seq + 1)).2.isAck = false →
-        abs ((((m.appendPut a sup reuse).afterAppend t).addCards a.nc (m.seq + 1)), Out.seq (m.seq + 1)).1 = abs m) := by
+    (((((m.appendPut a sup reuse).afterAppend t).addCards a.nc m.nextFrameId), Out.seq (m.seq + 1)).2.isAck = false →
+        abs ((((m.appendPut a sup reuse).afterAppend t).addCards a.nc m.nextFrameId), Out.seq (m.seq + 1)).1 = abs m) := by
   have hf : (m.appendPut a sup reuse).frames = m.frames := rfl
 
   have hp : (m.appendPut a sup reuse).pending = m.pending ++ putRecords m.seq a sup reuse := rfl
@@ -475,9 +475,9 @@ theorem putTail_accept (m : Mem) (a : PutArgs) (sup reuse : Option Nat) (t : Tra
     · rw [hpi, hp, countInserts_append, countInserts_putRecords, hi.pi]
   have ha1 : abs (m.appendPut a sup reuse) = sApply (abs m) (putRecords m.seq a sup reuse) := by
     unfold Mv.Core.abs; rw [hf, hp, sApply_append]
-  have hc := addCards_skel ((m.appendPut a sup reuse).afterAppend t) a.nc (m.seq + 1)
+  have hc := addCards_skel ((m.appendPut a sup reuse).afterAppend t) a.nc m.nextFrameId
   refine ⟨hc.inv (afterAppend_inv _ t hi1), fun _ => ?_, fun h => by simp [Out.isAck] at h⟩
-  show abs (((m.appendPut a sup reuse).afterAppend t).addCards a.nc (m.seq + 1)) = _
+  show abs (((m.appendPut a sup reuse).afterAppend t).addCards a.nc m.nextFrameId) = _
   rw [hc.abs, afterAppend_abs _ t hi1, ha1]
 
 /-- the effect `putTail` has on the abstract state -/
